@@ -230,7 +230,8 @@ def notsynced_schedules():
 # the cancelled call stays blocked.  The generic families validate with CancelMode "either"; this dedicated family
 # validates with the property in full (MultiClientTrace_prompt.cfg), on the pinned tree its first three schedules are
 # accepted only by the deviation cfg (CancelMode "coded").  Remove CANCEL_DEV once the fix is committed.
-CANCEL_DEV = [("C19-cancel-waits-for-deaf-node", "MultiClientTrace_coded.cfg")]
+TCFG = "MultiClientTrace_prompt.cfg"   # the property in full (cancellation returns promptly) since the fix 36c395e
+CANCEL_DEV = []   # fixed in /repo 36c395e (was: [("C19-cancel-waits-for-deaf-node", "MultiClientTrace_coded.cfg")])
 
 
 def canceldeaf_schedules():
@@ -413,10 +414,10 @@ def run(tier, seed):
     enum_stuck = enumerated_stuck(seed, thorough)
     rnd = random_schedules(seed, 20000 if thorough else 2500)
     # stage 2+3
-    vlib.conformance(o, FAMILY, "MultiClientTrace", "MultiClientTrace.cfg", "c19", scheds, tag="tlcgen")
-    vlib.conformance(o, FAMILY, "MultiClientTrace", "MultiClientTrace.cfg", "c19", enum, tag="enum")
-    vlib.conformance(o, FAMILY, "MultiClientTrace", "MultiClientTrace.cfg", "c19", enum_stuck, tag="enumstuck")
-    vlib.conformance(o, FAMILY, "MultiClientTrace", "MultiClientTrace.cfg", "c19", rnd, tag="random")
+    vlib.conformance(o, FAMILY, "MultiClientTrace", TCFG, "c19", scheds, tag="tlcgen")
+    vlib.conformance(o, FAMILY, "MultiClientTrace", TCFG, "c19", enum, tag="enum")
+    vlib.conformance(o, FAMILY, "MultiClientTrace", TCFG, "c19", enum_stuck, tag="enumstuck")
+    vlib.conformance(o, FAMILY, "MultiClientTrace", TCFG, "c19", rnd, tag="random")
     vlib.conformance(o, FAMILY, "MultiClientTrace", "MultiClientTrace.cfg", "c19", notsynced_schedules(), tag="notsynced",
                      dev_cfgs=DEV_CFGS)
     vlib.conformance(o, FAMILY, "MultiClientTrace", "MultiClientTrace_prompt.cfg", "c19", canceldeaf_schedules(),
